@@ -26,6 +26,9 @@ enum Arrival {
 struct Plan {
     timeout: Duration,
     arrival: Arrival,
+    /// frames carrying a foreign transaction id delivered at these offsets (MBAP only); they
+    /// must neither complete the request nor move its deadline
+    stale_at: Vec<Duration>,
 }
 
 fn reply_pdu(serial: u32) -> Vec<u8> {
@@ -74,7 +77,16 @@ fn gen_plan(rng: &mut Rng) -> Plan {
         10 => Arrival::At(t.saturating_sub(Duration::from_nanos(1))),
         _ => Arrival::At(Duration::from_nanos(rng.below(t.as_nanos().min(u64::MAX as u128) as u64 + 1))),
     };
-    Plan { timeout, arrival }
+    let mut stale_at = vec![];
+    if rng.chance(1, 3) && timeout >= 2 * MS {
+        let n = 1 + rng.below(3);
+        for _ in 0..n {
+            let frac = rng.range(1, 9);
+            stale_at.push(Duration::from_nanos((timeout.as_nanos() as u64 / 10).saturating_mul(frac)));
+        }
+        stale_at.sort();
+    }
+    Plan { timeout, arrival, stale_at }
 }
 
 fn run_timing_session(seed: u64, n: u64, ev: &mut Evidence) {
@@ -116,23 +128,40 @@ fn run_timing_session(seed: u64, n: u64, ev: &mut Evidence) {
                     }
                     Framing::Rtu => rtu_frame(f[0], &reply_pdu(serial)),
                 };
+                // timeline of (offset, bytes, is_last_byte_of_reply)
+                let mut timeline: Vec<(Duration, Vec<u8>, bool)> = vec![];
+                if framing == Framing::Mbap {
+                    for (j, at) in plan.stale_at.iter().enumerate() {
+                        let tx = (((f[0] as u16) << 8) | f[1] as u16).wrapping_sub(1 + j as u16);
+                        timeline.push((*at, mbap_frame(tx, f[6], &reply_pdu(77_000 + k as u32)), false));
+                    }
+                }
                 match plan.arrival {
                     Arrival::Never => {}
-                    Arrival::At(d) => {
-                        items.push(In::Delay(d));
-                        p.pushed += bytes.len() as u64;
-                        p.sent[k] = Some((serial, p.pushed));
-                        items.push(In::Chunk(bytes));
-                    }
+                    Arrival::At(d) => timeline.push((d, bytes.clone(), true)),
                     Arrival::Split(a, b) => {
                         let cut = 1 + (k % (bytes.len() - 1));
-                        items.push(In::Delay(a));
-                        items.push(In::Chunk(bytes[..cut].to_vec()));
-                        items.push(In::Delay(b.saturating_sub(a)));
-                        items.push(In::Chunk(bytes[cut..].to_vec()));
-                        p.pushed += bytes.len() as u64;
+                        timeline.push((a, bytes[..cut].to_vec(), false));
+                        timeline.push((b.max(a), bytes[cut..].to_vec(), true));
+                    }
+                }
+                // a stale frame must not land in the middle of a split reply
+                if matches!(plan.arrival, Arrival::Split(..)) {
+                    if let Arrival::Split(a, b) = plan.arrival {
+                        timeline.retain(|t| t.2 || t.0 <= a || t.0 > b || t.1.len() < 13 || false);
+                        timeline.retain(|t| !(t.1.len() == 13 && t.0 > a && t.0 <= b));
+                    }
+                }
+                timeline.sort_by_key(|t| t.0);
+                let mut now = Duration::ZERO;
+                for (at, b, last) in timeline {
+                    items.push(In::Delay(at.saturating_sub(now)));
+                    now = now.max(at);
+                    p.pushed += b.len() as u64;
+                    if last {
                         p.sent[k] = Some((serial, p.pushed));
                     }
+                    items.push(In::Chunk(b));
                 }
             }
             items
